@@ -3763,10 +3763,12 @@ class DecVarSub(VarSub):
             raise ValueError('Model mismatch.')
 
         self.fixed = False
-        if self.rand_adapt is None:
+        if self.dvars.rand_adapt is None:
             sup_model = self.dro_model.sup_model
-            self.rand_adapt = np.zeros((self.size, sup_model.vars[-1].last),
-                                       dtype=np.int8)
+            self.dvars.rand_adapt = np.zeros((self.size,
+                                              sup_model.vars[-1].last),
+                                             dtype=np.int8)
+        self.rand_adapt = self.dvars.rand_adapt
 
         dec_indices = self.indices
         dec_indices = dec_indices.reshape((dec_indices.size, 1))
